@@ -115,6 +115,12 @@ func c01(c *core.Ctx, r *core.Report) {
 		r.Check(ok, "R01.record", "analysis/taint.Visitor.Visit|record-before-cutoff", c.Pos(vf.Pos()), "a reached sink is recorded before the alarm cut-off is consulted", "the alarm cut-off can stop the traversal before a reached sink is recorded")
 	}
 	exitRule(c, r, "R01.exit", "Sinks")
+	// ---- R01.seenkey
+	seenKeyRule(c, r, "R01.seenkey", "analysis/taint", "a flow that returns to the second caller of a shared helper chain is not reported")
+	treeKeyRule(c, r, "R01.seenkey", "flows through call chains that differ only in the merged frames are lost")
+	boundsRule(c, r, "R01.bound", func(fn *ssa.Function, rel string) bool { return rel == "analysis/dataflow" || rel == "analysis/taint" },
+		"the guarded summary edge is not created and the flow through it is not reported")
+	memoRule(c, r, "R01.memo", func(fn *ssa.Function, rel string) bool { return rel == "analysis/taint" }, "stale traversal state hides flows")
 }
 
 // c01globalkey: in Do* handlers, transfer(state, loc, in, out, ...) must use
